@@ -382,6 +382,23 @@ func runC11(c *Ctx) {
 			c.check(extra == "", "store-always-sets", instrPos(in), "Store sets the entry unless it is already expired", "Store sets the entry only under "+extra+": a value stored later is silently dropped and Get keeps returning the overwritten one")
 		})
 	}
+
+	// ---------------------------------------------------------------- R8
+	c.rule("R8", "no lock-order cycle (mutexes and sync.Once) among the cache, the sharded map, the LRU and the cache plugin; user callbacks run under exactly one shard lock", 1)
+	{
+		scope := p.funcsIn(relCachePkg, relCMap, relCLRU, "pkg/lru", relCachePlugin)
+		lf2 := p.newLockFacts()
+		lf2.analyseScope(scope)
+		lo := newLockOrder(p, scope, lf2)
+		lo.build()
+		cycles := lo.cycles()
+		if len(cycles) == 0 {
+			c.ok("lock-order", 0, "acyclic (%d nested acquisitions: %s)", len(lo.Edges), strings.Join(lo.describe(), "; "))
+		}
+		for _, cyc := range cycles {
+			c.fail("lock-order", cyc[0].Pos, "lock-order cycle: %s — two goroutines block each other forever", fmtCycle(p, cyc))
+		}
+	}
 	_ = sort.Strings
 	_ = types.Typ
 }
